@@ -130,10 +130,15 @@ func (it *NativeIterator) Merge(oldval []byte) (val []byte, err error) {
 		// Current LMDB value has a higher timestamp, so keep that one
 		return oldval, nil
 	}
-	if newTS == oldTS && bytes.Compare(actualOldVal, entryVal) <= 0 {
-		// Same timestamp, lexicographic lower app value wins for deterministic values,
-		// so return the old value if the plain value was lower or equal.
-		return oldval, nil
+	if newTS == oldTS {
+		// Same timestamp: a deletion wins over a live value, otherwise the
+		// lexicographic lower app value wins for deterministic values, so that
+		// the result does not depend on the order in which versions arrive.
+		oldDeleted := h.Flags.IsDeleted()
+		newDeleted := entry.MaskedFlags().IsDeleted() || (len(entryVal) == 0 && it.FormatVersion < 2)
+		if oldDeleted || (!newDeleted && bytes.Compare(actualOldVal, entryVal) <= 0) {
+			return oldval, nil
+		}
 	}
 	// Update LMDB value
 	return it.addHeader(entryVal, newTS, entry.MaskedFlags(), false)
